@@ -19,7 +19,7 @@ package harness
 //
 // The abstract configuration space is walked systematically: a mixed-radix index over
 // (sender kind × receiver kind × ctx bypass × fee grant × #agents × primary denom slot incl.
-// required-attribute/receiver-attribute modes; kinds weighted by repetition) = 58320 strata is stepped with a stride coprime
+// required-attribute/receiver-attribute modes; kinds weighted by repetition) = 101520 strata is stepped with a stride coprime
 // to it; the remaining dimensions (who holds which right, deny list, further denoms, which
 // marker the sender/receiver account is, amounts, order) are drawn from the seeded RNG.
 
@@ -306,9 +306,17 @@ func (e *mkrsendEnv) setup(ws []string, viaBank bool, x *mkrsendX) (ctx sdk.Cont
 			attrTargets = append(attrTargets, e.addr(n))
 		}
 	}
+	// a name may be listed several times: the account then holds several attribute records under that
+	// one name (different values), which is ordinary in the attribute module
+	rattrSeen := map[string]int{}
 	for _, n := range mkrsendList(kvArg(ws, "rattrs"), "|") {
+		rattrSeen[n]++
+		val := "v"
+		if k := rattrSeen[n]; k > 1 {
+			val = fmt.Sprintf("v%d", k)
+		}
 		for _, target := range attrTargets {
-			at := attrtypes.Attribute{Name: n, Value: []byte("v"), Address: target.String(), AttributeType: attrtypes.AttributeType_String}
+			at := attrtypes.Attribute{Name: n, Value: []byte(val), Address: target.String(), AttributeType: attrtypes.AttributeType_String}
 			if err = e.app.AttributeKeeper.SetAttribute(ctx, at, e.owner); err != nil {
 				err = fmt.Errorf("SetAttribute(%s): %w", n, err)
 				return
@@ -734,16 +742,22 @@ func (s *mkrsendSlot) render(denom string) string {
 	return ""
 }
 
-var mkrsendReqModes = [][]string{nil, {"kyc.pb"}, {"*.kyc.pb"}, {"kyc.pb", "*.acme.pb"}}
+var mkrsendReqModes = [][]string{
+	nil, {"kyc.pb"}, {"*.kyc.pb"}, {"kyc.pb", "*.acme.pb"},
+	{"*.kyc.pb", "kyc.pb", "*.acme.pb"},      // three requirements, two of them about the same name family
+	{"kyc.pb", "*.acme.pb", "*.kyc.pb", "aa.kyc.pb"}, // four requirements, exact and wildcard
+}
 var mkrsendRattrModes = [][]string{
-	nil,                        // none
+	nil,                                   // none
 	{"kyc.pb", "aa.kyc.pb", "aa.acme.pb"}, // satisfies every mode
 	{"xkyc.pb", "kyc.zz", "acme.pb"},      // look-alikes only
 	{"kyc.pb"},                            // partial: exact only
+	{"kyc.pb", "kyc.pb", "kyc.pb"},        // partial: one name held several times (several values under one name)
+	{"aa.kyc.pb", "bb.kyc.pb", "aa.bb.kyc.pb", "kyc.pb", "aa.kyc.pb"}, // partial: many records, all of one name family
 }
 
-// primary slot values: 0 absent, 1 squat, 2..6 coin p f a c d, 7..10 restricted p f c d, 11..26 restricted active × req × rattr
-const mkrsendSlotValues = 27
+// primary slot values: 0 absent, 1 squat, 2..6 coin p f a c d, 7..10 restricted p f c d, 11.. restricted active × req × rattr
+var mkrsendSlotValues = 11 + len(mkrsendReqModes)*len(mkrsendRattrModes)
 
 func mkrsendPrimarySlot(v int) (s *mkrsendSlot, rattrMode int, tag string) {
 	s = &mkrsendSlot{grants: map[string]string{}}
@@ -765,9 +779,10 @@ func mkrsendPrimarySlot(v int) (s *mkrsendSlot, rattrMode int, tag string) {
 	default:
 		k := v - 11
 		s.kind, s.typ, s.status = "marker", "r", "a"
-		s.req = mkrsendReqModes[k/4]
-		rattrMode = k % 4
-		tag = fmt.Sprintf("restricted-a/req%d/rattr%d", k/4, k%4)
+		nr := len(mkrsendRattrModes)
+		s.req = mkrsendReqModes[k/nr]
+		rattrMode = k % nr
+		tag = fmt.Sprintf("restricted-a/req%d/rattr%d", k/nr, k%nr)
 	}
 	return
 }
@@ -782,7 +797,7 @@ var mkrsendSenderKinds = []string{"plain", "plain", "plain", "marker", "marker",
 var mkrsendReceiverKinds = []string{"plain", "plain", "plain", "markercoin", "markerrestricted", "markerrestricted", "bpacct", "bpacct", "fc"}
 var mkrsendBpAccts = []string{"bp:gov", "bp:quarantine", "bp:distribution", "bp:bonded", "bp:notbonded"}
 
-const mkrsendStrata = 10 * 9 * 4 * 2 * 3 * mkrsendSlotValues
+var mkrsendStrata = 10 * 9 * 4 * 2 * 3 * mkrsendSlotValues
 
 func gcd(a, b int) int {
 	for b != 0 {
@@ -965,6 +980,14 @@ func mkrsendGen(r *RNG, idx int, out *Out) (fields string, bankable bool, g *mkr
 	}
 	if r.Chance(10) {
 		rattrs = append(append([]string{}, rattrs...), Pick(r, []string{"aa.bb.kyc.pb", "bb.kyc.pb", "zz", "pb"}))
+	}
+	if len(rattrs) > 0 && r.Chance(15) {
+		// further records under names the receiver already holds (1-3 more values of one or two names)
+		rattrs = append([]string{}, rattrs...)
+		for k := 1 + r.Intn(3); k > 0; k-- {
+			rattrs = append(rattrs, rattrs[r.Intn(len(rattrs))])
+		}
+		out.Count("rattrs:repeated-name")
 	}
 	// amounts / order
 	bankable = from != to
